@@ -130,10 +130,22 @@ def Probe.tiebreaking (p : Probe) (authorities : List Rec) (probeName : BList) (
     | .lt => { p with start := now + 1000, next := now + 1000 }
     | _ => p
 
-/-- `Probe::update_next_send` -/
-def Probe.updateNextSend (p : Probe) (now : Nat) : Probe := { p with next := now + 250 }
+/-- `Probe::update_next_send` (repair of D31): a query that goes out later than planned moves
+    the rest of the schedule - `start_time` - by the same time -/
+def Probe.updateNextSend (p : Probe) (now : Nat) : Probe := { p with start := p.start + (now - p.next), next := now + 250 }
 
-/-- `Probe::expired` -/
-def Probe.expired (p : Probe) (now : Nat) : Bool := decide (now ≥ p.start + 750)
+/-- `Probe::expired` (repair of D31): 750 ms old AND the three queries sent - `next_send` has
+    moved on to the end of the schedule -/
+def Probe.expired (p : Probe) (now : Nat) : Bool := decide (now ≥ p.start + 750) && decide (p.next ≥ p.start + 750)
+
+/-- the loop of `check_probing` for one probe over the instants `ts`: a due probe ends
+    (`false, t`) when it is expired, otherwise sends (`true, t`) and moves on -/
+def Probe.run (p : Probe) : List Nat → List (Bool × Nat) × Probe
+  | [] => ([], p)
+  | t :: ts =>
+    if t ≥ p.next then
+      if p.expired t then ([(false, t)], p)
+      else ((true, t) :: ((p.updateNextSend t).run ts).1, ((p.updateNextSend t).run ts).2)
+    else p.run ts
 
 end Mdns.Compare
